@@ -7,7 +7,7 @@ from . import base
 ID = "C17"
 LEVEL = "exploration"
 RULE = (
-    "quiescent environment (no field, no current, epsilon = 1, terminals unpinned): random irregular / smoothed / holed meshes, "
+    "quiescent environment (no field, no current, epsilon = 1, terminals unpinned or pinned to the uniform value 1): random irregular / smoothed / holed meshes, "
     "gamma and u varied, adaptive on/off, screening on/off, thermalisation, injected refusals, up to 300 steps; stationarity "
     "invariant (<= 1e-9) after every update and bounded liveness dt == dt_max from step window+2 on; non-trivial = at least 5 "
     "updates on a mesh with >= 10 sites; distinct = scenario digests"
@@ -35,7 +35,9 @@ def gen(seed, idx, tier):
     scn["drive"]["epsilon"] = rnd.choice([None, {"kind": "const", "v": 1.0}])
     scn["drive"]["field"] = rnd.choice([{"kind": "zero"}, {"kind": "const", "B": 0.0}, {"kind": "const_param", "B": 0.0}])
     if scn["device"]["terminals"]:
-        scn["options"]["terminal_psi"] = None
+        # left unpinned, or (a quarter) pinned to the value of the uniform state itself, for which
+        # psi = 1 is still a fixed point of the documented scheme
+        scn["options"]["terminal_psi"] = rnd.choice([None, None, None, 1.0])
         if rnd.random() < 0.5:
             scn["drive"]["currents"] = {"kind": "const", "I": {t["name"]: 0.0 for t in scn["device"]["terminals"]}}
     if rnd.random() < 0.3:
